@@ -5,6 +5,7 @@ CONSTANTS
   Classes = {"MA", "MB"}
   InitStreams <- InitStreamsDef
   ApplyCfgs <- ApplyCfgsFull
+  Lifts = {"none"}
   Separator = TRUE
   Hist = FALSE
 SPECIFICATION Spec
